@@ -2,6 +2,7 @@ package sim
 
 import (
 	"bytes"
+	"encoding/base64"
 	"encoding/json"
 	"flag"
 	"fmt"
@@ -35,6 +36,7 @@ type raceEvidence struct {
 	RepoReports int      `json:"race_reports_in_repo_code"`
 	Fatal       int      `json:"fatal_concurrent_map_errors"`
 	Differs     int      `json:"parallel_responses_differing_from_solo"`
+	StateWriters int     `json:"state_writer_requests_from_simulated_half"`
 	Note        string   `json:"note"`
 	Pairs       []string `json:"pairs,omitempty"`
 }
@@ -269,16 +271,32 @@ func (c *checker) raceHalf(a *runOutcome) {
 	if os.Getenv("DST_NODE_RACE") == "" {
 		infra("C10 needs the -race node (DST_NODE_RACE not set)")
 	}
-	nPlans, rounds, procs := 240, 3, 4
+	nPlans, rounds, procs := 1500, 2, 8
 	if c.tier == "thorough" {
-		nPlans, rounds, procs = 6000, 4, 8
+		nPlans, rounds, procs = 40000, 3, 12
 	}
 	sets := raceSetsFromPlans(c.prop, c.seed, c.tier, nPlans)
 	// the schema endpoint next to decisions: its lazy initialisation is process-wide state
 	if len(sets) > 0 {
 		sets[0] = append(sets[0], raceReq{Method: "GET", Path: "/api/preferenceFunctions"}, raceReq{Method: "GET", Path: "/api/preferenceFunctions"})
 	}
-	ev := &raceEvidence{Rounds: rounds, RequestSets: len(sets), Note: "un-instrumented -race build, requests of a set released together as parallel goroutines; interleavings not simulator-chosen (see DESIGN.md 6.5)"}
+	// requests after which the process-wide state fingerprint differed in the simulated half are
+	// prime suspects for an unsynchronised write: each runs against copies of itself
+	seen := map[string]bool{}
+	writers := 0
+	for _, r := range a.results {
+		for _, wb := range r.Writers {
+			if seen[wb] || writers >= 60 {
+				continue
+			}
+			seen[wb] = true
+			writers++
+			body, _ := base64.StdEncoding.DecodeString(wb)
+			one := raceReq{Method: "POST", Path: "/api/decide", Body: body}
+			sets = append(sets, []raceReq{one, one, one})
+		}
+	}
+	ev := &raceEvidence{Rounds: rounds, RequestSets: len(sets), StateWriters: writers, Note: "un-instrumented -race build, requests of a set released together as parallel goroutines; interleavings not simulator-chosen (see DESIGN.md 6.5)"}
 	c.raceEv = ev
 	type part struct {
 		ro      raceOutput
